@@ -204,3 +204,64 @@ Definition read_open (body : list N) : option open_view :=
       else None
   | _ => None
   end.
+
+(* RFC 8277 2.2 / 2.3 (labeled unicast) and RFC 4364 4.3.4 (VPN): an NLRI is
+   <[path identifier], length in bits, label stack (3 octets per label: 20-bit value,
+   3 bits, bottom-of-stack bit; the last label has the bit set), [route distinguisher
+   (8 octets, VPN only)], prefix (ceil(bits / 8) octets)>, where length = 24 * labels
+   (+ 64) + prefix bits. *)
+Fixpoint read_labels (fuel : nat) (b : list N) : option (list N * list N) :=
+  match fuel with
+  | O => None
+  | S k =>
+      match b with
+      | b0 :: b1 :: b2 :: r =>
+          let v := ((b0 * 256 + b1) * 256 + b2) / 16 in
+          if b2 mod 2 =? 1 then Some ([v], r)
+          else match read_labels k r with Some (ls, r') => Some (v :: ls, r') | None => None end
+      | _ => None
+      end
+  end.
+
+Record lprefix := {
+  lp_pid : N; lp_labels : list N; lp_rd : list N; lp_mask : N; lp_octets : list N
+}.
+
+Fixpoint read_lprefixes (fuel : nat) (addpath vpn : bool) (maxbits : N) (b : list N) : option (list lprefix) :=
+  match b with
+  | [] => Some []
+  | _ =>
+    match fuel with
+    | O => None
+    | S k =>
+      match (if addpath then
+               match b with
+               | b0 :: b1 :: b2 :: b3 :: r => Some (((b0 * 256 + b1) * 256 + b2) * 256 + b3, r)
+               | _ => None
+               end
+             else Some (0, b)) with
+      | Some (pid, bits :: r) =>
+          match read_labels (length r) r with
+          | Some (ls, r1) =>
+              match (if vpn then take 8 r1 else Some ([], r1)) with
+              | Some (rd, r2) =>
+                  let fixed := 24 * blen ls + (if vpn then 64 else 0) in
+                  if (fixed <=? bits) && (bits - fixed <=? maxbits) then
+                    match take ((bits - fixed + 7) / 8) r2 with
+                    | Some (o, r3) =>
+                        match read_lprefixes k addpath vpn maxbits r3 with
+                        | Some t => Some ({| lp_pid := pid; lp_labels := ls; lp_rd := rd;
+                                             lp_mask := bits - fixed; lp_octets := o |} :: t)
+                        | None => None
+                        end
+                    | None => None
+                    end
+                  else None
+              | None => None
+              end
+          | None => None
+          end
+      | _ => None
+      end
+    end
+  end.
